@@ -422,9 +422,14 @@ def _plainness_by_evaluation(src):
     fsmodel.install(pe, fsmodel.FS())          # isinstance / float() semantics of the NumPy scalar model
     F = Fraction
     ev = pe.enum_members(src.cls("eko.io.types.EvolutionMethod"))["TRUNCATED"]
-    cfg = pe.apply(pe.getattr(ClassRef(src.cls("eko.io.runcards.Configs")), "from_dict"), [{
-        "evolution_method": "truncated", "ev_op_max_order": [10, 0], "ev_op_iterations": 2, "scvar_method": None, "inversion_method": None,
-        "interpolation_polynomial_degree": 4, "interpolation_is_log": True, "polarized": False, "time_like": False}], {})
+    raw_cfg = {"evolution_method": "truncated", "ev_op_max_order": [10, 0], "ev_op_iterations": 2, "scvar_method": None, "inversion_method": None,
+               "interpolation_polynomial_degree": 4, "interpolation_is_log": True, "polarized": False, "time_like": False}
+    try:
+        cfg = pe.apply(pe.getattr(ClassRef(src.cls("eko.io.runcards.Configs")), "from_dict"), [dict(raw_cfg)], {})
+    except PERaise:
+        # the loader refuses this section (decided and reported by the reader rule): a card section is still needed as a representative
+        cfg = Obj(src.cls("eko.io.runcards.Configs"))
+        cfg.attrs.update(dict(raw_cfg, evolution_method=ev, ev_op_max_order=(10, 0), n_integration_cores=1))
     xg = pe.instantiate("eko.interpolation.XGrid", [[F(1, 10), F(1, 2), F(1)], True])
     tcls = src.cls("eko.io.items.Target")
 
